@@ -835,6 +835,8 @@ def build(repo):
             racc(f, False)                                  # `x = latch;`
         elif re.search(r"\bif\s*\(\s*$", headtxt) and re.match(r"\s*\)", tail):
             racc(f, False)                                  # `if (latch)`
+        elif re.search(r"(\(|&&|\|\||!)\s*$", headtxt) and re.match(r"(\[\w+\])?\s*(&&|\|\||\))", tail):
+            racc(f, False)                                  # a load inside a condition: `... && !latch[0] && ...`
         else:
             fail("%s: Run uses %s in an unrecognised way: %r" % (what, f, (headtxt[-20:] + f + tail[:20])))
     accesses += run_acc
